@@ -34,7 +34,10 @@ func (NopLogger) Trace(msg string, ctx ...interface{})       {}
 func (NopLogger) Debug(msg string, ctx ...interface{})       {}
 
 // StubNet implements network.Network; outgoing messages are counted and dropped.
-type StubNet struct{ Sent int }
+type StubNet struct {
+	Sent    int
+	Account string // reported by PeerInfo (the consensus plugins take their own address from it)
+}
 
 func (s *StubNet) Start() {}
 func (s *StubNet) Stop()  {}
@@ -52,7 +55,7 @@ func (s *StubNet) NewSubscriber(xpb.XuperMessage_MessageType, interface{}, ...p2
 func (s *StubNet) Register(p2p.Subscriber) error   { return nil }
 func (s *StubNet) UnRegister(p2p.Subscriber) error { return nil }
 func (s *StubNet) Context() *nctx.NetCtx           { return nil }
-func (s *StubNet) PeerInfo() xpb.PeerInfo          { return xpb.PeerInfo{} }
+func (s *StubNet) PeerInfo() xpb.PeerInfo          { return xpb.PeerInfo{Account: s.Account} }
 
 // Election is a fixed validator set; no next leader is named, so a replica never sends its vote
 // (the drivers deliver votes themselves).
